@@ -203,13 +203,40 @@ theorem weather_visited (p : MethodP) (budget : Int) (n : Nat) (reqs : List Req)
 
 theorem checkWeather_iff (e : Envelope) (w : Wx) :
     checkWeather e w = true ↔
-      (e.tempLo ≤ w.temp ∧ w.temp ≤ e.tempHi) ∧ (e.windLo ≤ w.wind ∧ w.wind ≤ e.windHi) ∧
-      (e.precipLo ≤ w.precip ∧ w.precip ≤ e.precipHi) := by
+      (w.tempMissing = false ∧ e.tempLo ≤ w.temp ∧ w.temp ≤ e.tempHi) ∧
+      (w.windMissing = false ∧ e.windLo ≤ w.wind ∧ w.wind ≤ e.windHi) ∧
+      (w.precipMissing = false ∧ e.precipLo ≤ w.precip ∧ w.precip ≤ e.precipHi) := by
   unfold checkWeather
-  simp only [Bool.and_eq_true, decide_eq_true_eq]
+  simp only [Bool.and_eq_true, decide_eq_true_eq, Bool.not_eq_true']
   constructor
-  · rintro ⟨⟨h1, h2⟩, h3⟩; exact ⟨h3, h2, h1⟩
-  · rintro ⟨h1, h2, h3⟩; exact ⟨⟨h3, h2⟩, h1⟩
+  · rintro ⟨⟨⟨h1, h2⟩, ⟨h3, h4⟩⟩, ⟨h5, h6⟩⟩; exact ⟨⟨h5, h6⟩, ⟨h3, h4⟩, ⟨h1, h2⟩⟩
+  · rintro ⟨⟨h5, h6⟩, ⟨h3, h4⟩, ⟨h1, h2⟩⟩; exact ⟨⟨⟨h1, h2⟩, ⟨h3, h4⟩⟩, ⟨h5, h6⟩⟩
+
+/-- **a missing weather value is never workable**: if temperature, wind or precipitation at the
+site's cell is missing (NaN in the weather file) the envelope test fails whatever the envelope, so
+(`weather_visited`) a method that considers weather never visits the site that day and
+(`weather_unworkable`) the request goes back to the queue untouched -/
+theorem missing_never_workable (e : Envelope) (w : Wx)
+    (h : w.tempMissing = true ∨ w.windMissing = true ∨ w.precipMissing = true) :
+    checkWeather e w = false := by
+  cases hc : checkWeather e w with
+  | false => rfl
+  | true =>
+    have := (checkWeather_iff e w).1 hc
+    rcases h with h | h | h <;> simp_all
+
+theorem missing_not_visited (p : MethodP) (budget : Int) (n : Nat) (reqs : List Req)
+    (hw : p.considerWeather = true) :
+    ∀ o ∈ (deployDay p budget n reqs).out,
+      (o.req.wx.tempMissing = true ∨ o.req.wx.windMissing = true ∨ o.req.wx.precipMissing = true) →
+      ∀ s, o.step = some s → s.visited = false := by
+  intro o ho hm s hs
+  cases hv : s.visited with
+  | false => rfl
+  | true =>
+    have := (weather_visited p budget n reqs o ho s hs hv).2 hw
+    rw [missing_never_workable p.env o.req.wx hm] at this
+    exact absurd this (by simp)
 
 /-- weather, part 2: when the weather at a site is not workable its report is handed back unchanged
 (no minutes, no flags) and the schedule re-queues the request -/
